@@ -91,7 +91,8 @@ class Session:
                 if mm:
                     detail = ":" + mm.group(1)
                 fn = re.search(r"#\d+ 0x[0-9a-f]+ in (sbepp::[\w:]+)", tail)
-                site = fn.group(1) if fn else (case["what"] if case else "driver")
+                # keys carry no case-specific numbers (DESIGN appendix C): "visit stop-at=39" -> "visit stop-at=N"
+                site = fn.group(1) if fn else (re.sub(r"\d+", "N", case["what"]) if case else "driver")
                 rep.violation(kind + detail, site, "%s/%s: driver died (rc=%s) in case %s: %s" % (
                     p.schema.name, cfg, rc, case["cmd"][:200] if case else cid, tail[-1200:]),
                     {"schema": p.schema.name, "schema_xml": p.xml, "config": str(cfg), "case": case["cmd"] if case else cid,
@@ -334,7 +335,7 @@ def dec_main(prop):
                "top-level group are all compared with the sizes of the reference image; plus header-only views whose "
                "numInGroup x blockLength products reach 2^16..2^64 (see big_products). distinct_nontrivial = distinct "
                "(schema, message, image) with a group or data member, plus distinct big products." % nimg,
-        "C19": "per message %d images: full visit, and one visit per stopping point k = 1..min(#callbacks, %d) with a "
+        "C19": "per message %d images (the last one with inflated wire block lengths): full visit, and one visit per stopping point k = 1..min(#callbacks, %d) with a "
                "recording visitor (callback kind, traits name of the callback's tag, value, order), both visit overloads; "
                "visit of every enum member value (known/unknown tag) and every set member (all choices in order); "
                "get_by_tag/set_by_tag equivalence is exercised by the tag modes of C01/C02 on the same drivers. "
@@ -349,8 +350,11 @@ def dec_main(prop):
             rng = C.rng_for(rep.seed, prop, p.schema.name, msg.name)
             for k in range(nimg):
                 # image 1: the first two <data> members with an 8/16-bit length type carry the largest valid length
-                vals = R.gen_values(m, msg, rng, inflate=inflate, force=(k <= 1), big_data=([2] if k == 1 else None))
-                if inflate:
+                # C19: the last image of every message carries inflated wire block lengths (entries of constant-only or
+                # empty groups then occupy bytes, which the visiting code has to step over -- seeded change C19-4)
+                infl = inflate or (prop == "C19" and k == nimg - 1)
+                vals = R.gen_values(m, msg, rng, inflate=infl, force=(k <= 1), big_data=([2] if k == 1 else None))
+                if infl:
                     pre = bytes(rng.getrandbits(8) for _ in range(R.message_size(m, msg, vals)))
                     (arena, end), owner = R.encode_message(m, msg, vals, prefill=pre)
                     image = arena[:end]
@@ -364,7 +368,7 @@ def dec_main(prop):
                         cid = "d%d_%d" % (mi, len(cases))
                         cases.append(dict(base, id=cid, cmd="DEC %s %x %d %s" % (cid, mi, mode, hx), mode=mode, kind="dec",
                                           what="decode mode=%s" % G.DUMP_MODES[mode]))
-                if prop == "C05" and not inflate:
+                if prop == "C05" and not infl:
                     toks, exp = G.siz_tokens(m, msg, vals)
                     cid = "s%d_%d" % (mi, len(cases))
                     cases.append(dict(base, id=cid, cmd="SIZ %s %x %s" % (cid, mi, " ".join(toks)), kind="siz", exp=exp,
